@@ -40,7 +40,17 @@ static void collectTree(DOMNode* n, std::vector<DOMNode*>& out, size_t bound) {
     if (!n || bound == 0) return;
     out.push_back(n);
     for (DOMNode* k = n->getFirstChild(); k; k = k->getNextSibling()) collectTree(k, out, bound - 1);
+    if (n->getNodeType() == DOMNode::ELEMENT_NODE) {
+        DOMNamedNodeMap* am = n->getAttributes();
+        for (XMLSize_t a = 0; am && a < am->getLength(); a++) collectTree(am->item(a), out, bound - 1);
+    }
 }
+class NopHandler : public DOMUserDataHandler {
+public:
+    void handle(DOMOperationType, const XMLCh* const, void*, const DOMNode*, DOMNode*) {}
+};
+static NopHandler gHandler;
+static const XMLCh gK1[] = {'k', '1', 0}, gK2[] = {'k', '2', 0}, gK3[] = {'k', '3', 0};
 static void markDead(const std::vector<DOMNode*>& v) {
     for (DOMNode* n : v) {
         auto it = idx.find(n);
@@ -163,6 +173,9 @@ static std::string dump(const std::string& verdict) {
         DOMNamedNodeMap* am = t == DOMNode::ELEMENT_NODE ? n->getAttributes() : 0;
         for (XMLSize_t a = 0; am && a < am->getLength(); a++) { if (a) out += ','; out += ix(am->item(a)); }
         out += "}:" + (t == DOMNode::ATTRIBUTE_NODE ? ix(((DOMAttr*)n)->getOwnerElement()) : std::string("-"));
+        out += ":" + std::to_string((long)(intptr_t)n->getUserData(gK1)) + "," + std::to_string((long)(intptr_t)n->getUserData(gK2)) + "," +
+               std::to_string((long)(intptr_t)n->getUserData(gK3));
+        out += t == DOMNode::ATTRIBUTE_NODE ? (((DOMAttr*)n)->isId() ? ":id" : ":noid") : ":-";
     }
     return out + " " + verdict;
 }
@@ -230,6 +243,50 @@ static std::string doOp(const std::vector<std::string>& a) {
             DOMNode* r = ((DOMDocument*)d)->renameNode(n, a[3] == "-" ? 0 : ns.data(), nm.data());
             reg(r);
             return "n" + ix(r);
+        }
+        if (o == "su" && a.size() == 5) {
+            DOMNode* n0 = node(a[1]);
+            if (!n0) return "skip";
+            void* old = n0->setUserData(unhex(a[2]).data(), (void*)(intptr_t)atol(a[3].c_str()), a[4] == "1" ? &gHandler : 0);
+            return "d" + std::to_string((long)(intptr_t)old);
+        }
+        if (o == "gu" && a.size() == 3) {
+            DOMNode* n0 = node(a[1]);
+            if (!n0) return "skip";
+            return "d" + std::to_string((long)(intptr_t)n0->getUserData(unhex(a[2]).data()));
+        }
+        if ((o == "rl" || o == "rlx") && a.size() == 2) {
+            DOMNode* n0 = node(a[1]);
+            if (!n0 || n0->getNodeType() == DOMNode::DOCUMENT_NODE) return "skip";
+            std::vector<DOMNode*> sub;
+            collectTree(n0, sub, pool.size() + 2);
+            bool owned = n0->getParentNode() != 0 ||
+                         (n0->getNodeType() == DOMNode::ATTRIBUTE_NODE && ((DOMAttr*)n0)->getOwnerElement() != 0);
+            if (!owned && o == "rl")            // F35: releasing a registered ID attribute leaves a dangling ID map entry
+                for (DOMNode* x : sub)
+                    if (x->getNodeType() == DOMNode::ATTRIBUTE_NODE && ((DOMAttr*)x)->isId()) return "skip";
+            n0->release();
+            markDead(sub);
+            return "ok";
+        }
+        if (o == "si" && a.size() == 4) {
+            DOMNode* n0 = node(a[1]);
+            if (!n0 || n0->getNodeType() != DOMNode::ELEMENT_NODE) return "skip";
+            ((DOMElement*)n0)->setIdAttribute(unhex(a[2]).data(), a[3] == "1");
+            return "ok";
+        }
+        if (o == "sin" && a.size() == 4) {
+            DOMNode* n0 = node(a[1]);
+            DOMNode* an = node(a[2]);
+            if (!n0 || !an || n0->getNodeType() != DOMNode::ELEMENT_NODE || an->getNodeType() != DOMNode::ATTRIBUTE_NODE) return "skip";
+            ((DOMElement*)n0)->setIdAttributeNode((DOMAttr*)an, a[3] == "1");
+            return "ok";
+        }
+        if (o == "gi" && a.size() == 3) {
+            DOMNode* d = node(a[1]);
+            if (!d || d->getNodeType() != DOMNode::DOCUMENT_NODE) return "skip";
+            DOMElement* r = ((DOMDocument*)d)->getElementById(unhex(a[2]).data());
+            return r ? "n" + ix(r) : std::string("ok");
         }
         if (o == "nz" && a.size() == 2) {
             if (!live(a[1])) return "skip";
